@@ -148,3 +148,78 @@ def inline_all(facts, names_or_bodies, **kw):
             raise KeyError('no unique body named %r' % (x,))
         out[b.name] = inline_calls(facts, b, **kw)
     return out
+
+
+# ---------------------------------------------------------------------------------------------------------------------
+# awaited async helpers
+# ---------------------------------------------------------------------------------------------------------------------
+def inline_awaits(facts, body, should_inline, max_rounds=4):
+    """New Body in which the poll of an awaited workspace `async fn` (in pre-lowering MIR: a direct call of the coroutine
+    body `f::{closure#0}(pin, cx)` inside the await loop) is replaced by that coroutine's body, for every callee coroutine
+    K with should_inline(K).  K's own suspension points stay (its `yield`s are copied); its captured arguments are read from
+    the pinned future (`_1' = *(pin.0)`), its result is wrapped as `Poll::Ready`.  The caller's Pending arm becomes dead.
+    Combined with inline_calls on the outer shell `f(args)` (which only builds the coroutine from its arguments) the
+    arguments flow into the copied body."""
+    d = copy.deepcopy(body.d)
+    locs, blocks, dbg = d['locals'], d['blocks'], d['dbg']
+    seen_chain = {i: (body.name,) for i in range(len(blocks))}
+    for _round in range(max_rounds):
+        changed = False
+        for bi in range(len(blocks)):
+            blk = blocks[bi]
+            t = blk['t']
+            if blk['cleanup'] or t['k'] != 'call':
+                continue
+            name = strip_generics(t.get('resolved') or t.get('callee') or '')
+            if not name.endswith('::{closure#0}') or len(t['args']) != 2:
+                continue
+            cal = facts.body(name)
+            chain = seen_chain.get(bi, (body.name,))
+            if cal is None or cal.kind != 'coroutine' or cal.crate not in facts.crates or cal.name in chain or cal.name == body.name:
+                continue
+            if not should_inline(cal):
+                continue
+            mark, loff, boff = cal.name, len(locs), len(blocks)
+            pos = {k: t[k] for k in ('l', 'x', 'cs') if k in t}
+            locs.extend(dict(l, inl=mark) for l in cal.locals)
+            dbg.extend(dict(_copy(v, loff), arg=None, inl=mark) for v in cal.dbg)
+            for cb in cal.blocks:
+                nb = _copy(cb, loff)
+                for s in nb['s']:
+                    s.setdefault('inl', mark)
+                nt = nb['t']
+                if nt['k'] == 'return':
+                    nb['s'].append(dict(pos, k='assign', lhs=_copy(t['dest'], 0), inl=mark,
+                                        rv={'k': 'aggregate', 'agg': 'adt', 'adt': 'core::task::poll::Poll', 'adt_inst': 'core::task::poll::Poll<_>',
+                                            'variant': 0, 'vname': 'Ready', 'fields': ['0'],
+                                            'ops': [{'k': 'move', 'pl': {'l': loff, 'p': []}}]}))
+                    keep = {k: nt[k] for k in ('l', 'x', 'cs') if k in nt}
+                    nt = dict(keep, k='goto', target=t['target']) if t['target'] is not None else {'k': 'unreachable'}
+                    nb['t'] = nt
+                elif nt['k'] == 'coroutine_drop':
+                    nb['t'] = {'k': 'unreachable'}
+                else:
+                    _shift_blocks(nt, boff)
+                nb['t'].setdefault('inl', mark)
+                blocks.append(nb)
+                seen_chain[len(blocks) - 1] = chain + (mark,)
+            pin = t['args'][0]
+            if pin.get('k') in ('copy', 'move'):
+                src = {'k': 'copy', 'pl': {'l': pin['pl']['l'], 'p': list(pin['pl']['p']) + [{'f': 0, 'ty': '&mut _'}, '*']}}
+                blk['s'].append(dict(pos, k='assign', lhs={'l': loff + 1, 'p': []}, rv={'k': 'use', 'op': src}, inl=mark))
+            blk['s'].append(dict(pos, k='assign', lhs={'l': loff + 2, 'p': []}, rv={'k': 'use', 'op': t['args'][1]}, inl=mark))
+            blk['t'] = dict(pos, k='goto', target=boff, inl=mark)
+            # the copied body always completes with Poll::Ready: the await loop's Pending arm is dead
+            if t['target'] is not None:
+                tb = blocks[t['target']]
+                dl = t['dest']['l']
+                disc = [s['lhs']['l'] for s in tb['s'] if s.get('k') == 'assign' and s['rv'].get('k') == 'discr' and s['rv']['pl']['l'] == dl and not s['rv']['pl']['p']]
+                tt = tb['t']
+                if disc and tt['k'] == 'switch' and tt['discr'].get('pl', {}).get('l') in disc:
+                    ready = [b for v, b in tt['targets'] if int(v) == 0]
+                    if ready:
+                        tb['t'] = dict({k: tt[k] for k in ('l', 'x', 'cs') if k in tt}, k='goto', target=ready[0], inl=mark)
+            changed = True
+        if not changed:
+            break
+    return Body(d, body.crate, body.cfg)
